@@ -12,6 +12,7 @@ func init() {
 		Level: "exploration",
 		Rule: "cases: NetworkPolicy-only worlds drawn from a tiny vocabulary by a (seed,index)-determined PRNG, written as YAML in a random file layout and analysed by ConnlistFromDirPath; " +
 			"the report is compared with an independent reference model on all ordered workload pairs x 3x65535 points (bitset equality) and on every address atom induced by the CIDR/except boundaries plus the end points of every reported range; " +
+			"the tail of the case list holds fixture-derived worlds: every manifest directory shipped with the repository that our own decoder can express as a world without NetworkPolicy-foreign constructs, analysed as shipped, re-emitted, and after 1..k single-step edits, judged by the same model; " +
 			"non-trivial = some workload is governed by a policy and the expected relation is neither empty nor all-'All Connections'; distinct = distinct world content hash",
 		Assumptions: []string{
 			"reference model (own selector matcher, uint32 CIDR arithmetic, 65536-bit sets per protocol) reads the property statement correctly",
@@ -19,16 +20,20 @@ func init() {
 			"IPv4 only; the model is constant on an address atom by construction, so one representative per atom is exhaustive over addresses given C05's partition invariant",
 			"a fatal error is accepted iff the model finds a named port that would have to be resolved on an address (documented deviation)",
 		},
-		NumCases:          func(tier string, _ int64) int { return tierN(tier, 1500, 60000) },
+		NumCases:          func(tier string, _ int64) int { return tierN(tier, 1500, 60000) + nFixModel(tier) },
 		Run:               runC01,
 		MinNonTrivial:     300,
 		MinEffectiveShare: 0.5,
-		RequiredEvents:    map[string]int64{"pairs_compared": 10000, "feature_endPort": 20, "feature_namedPort": 20, "feature_except": 20, "feature_protoOnlyPort": 20, "feature_missingNsObject": 20, "feature_NotIn": 10, "feature_DoesNotExist": 10, "feature_policyTypesDefaulted": 20},
+		RequiredEvents:    map[string]int64{"pairs_compared": 10000, "feature_endPort": 20, "feature_namedPort": 20, "feature_except": 20, "feature_protoOnlyPort": 20, "feature_missingNsObject": 20, "feature_NotIn": 10, "feature_DoesNotExist": 10, "feature_policyTypesDefaulted": 20, "fixture_cases": 50},
 	})
 }
 
 func runC01(c *run.Ctx) {
 	r := c.Res
+	if base := tierN(c.Tier, 1500, 60000); c.Idx >= base { // tail of the list: fixture-derived worlds
+		runFixtureModel(c, c.Idx-base, false, "c01", false)
+		return
+	}
 	g := c.R("world")
 	cfg := world.DefaultCfg()
 	cfg.KindTwins, cfg.SharedNames = 0.12, 0.1
